@@ -1,6 +1,7 @@
 import BromeliaVerif.Gen.PsmGen
 import BromeliaVerif.Proofs.PsmRef
 import BromeliaVerif.Proofs.PsmGhost
+import BromeliaVerif.Proofs.PsmNorm
 import BromeliaVerif.Properties.C06
 import BromeliaVerif.Properties.C07
 /-! Tie (a) for the peer state machine (C06, C07, the state-machine part of C08).
@@ -18,12 +19,21 @@ re-checked against it:
 namespace BV.C06Gen
 open BV.Psm BV.PsmT
 
-/-- the code as translated now IS the reference translation (decided by the kernel on the regenerated file) -/
+/-- the code as translated now IS the reference translation, up to the verified normal form (`Proofs/PsmNorm.lean`:
+statements regrouped, helper flags instantiated, equal branches merged) — decided by the kernel on the regenerated file -/
 theorem code_is_reference :
-    (∀ s : St, BV.Gen.Psm.runProg s = BV.PsmRef.runProg s) ∧ BV.Gen.Psm.nextProg = BV.PsmRef.nextProg := by
+    (∀ s : St, (BV.Gen.Psm.runProg s).norm = (BV.PsmRef.runProg s).norm) ∧
+      BV.Gen.Psm.nextProg.norm = BV.PsmRef.nextProg.norm := by
   refine ⟨fun s => ?_, ?_⟩
   · cases s <;> decide
   · decide
+
+theorem code_run_exec (V : Verd) (s : St) (ps : PS) :
+    (BV.Gen.Psm.runProg s).exec V ps = (BV.PsmRef.runProg s).exec V ps :=
+  Prog.exec_congr_norm V _ _ (code_is_reference.1 s) ps
+
+theorem code_next_exec (V : Verd) (ps : PS) : BV.Gen.Psm.nextProg.exec V ps = BV.PsmRef.nextProg.exec V ps :=
+  Prog.exec_congr_norm V _ _ code_is_reference.2 ps
 
 /-- one iteration of the loop of `PeerStateMachine.__start`, as translated from the code: `current_state.run()`, then
 `current_state = get_next_state(current_state.next_state)`; `nx nm mg` are whatever the state object's `next_state`,
@@ -36,7 +46,7 @@ blocking `get()`, `name` = own state, next state and node as `runState` says -/
 theorem code_run_refines (V : Verd) (hV : Sound V) (n : Node) (nx nm : St) (mg : Option PMsg) :
     BV.PsmRefProof.Refines BV.Gen.Psm.runProg V n nx nm mg := by
   unfold BV.PsmRefProof.Refines
-  rw [code_is_reference.1]
+  rw [code_run_exec]
   exact BV.PsmRefProof.ref_run_refines V hV n nx nm mg
 
 /-- one loop iteration of the translated code = `tick` of the hand model (up to ghost fields), for EVERY node state -/
@@ -49,7 +59,7 @@ theorem code_tick_refines (V : Verd) (hV : Sound V) (n : Node) (nx nm : St) (mg 
   have h2 := BV.PsmRefProof.ref_next_refines V ((BV.Gen.Psm.runProg n.st).exec V (PS.start n nx nm mg)) he
   obtain ⟨he2, hs2, hn2, hr2⟩ := h2
   unfold tickCode
-  rw [code_is_reference.2]
+  rw [code_next_exec]
   refine ⟨he2, by rw [hs2, hs], ?_, hr2⟩
   rw [hn2, hname, hnext]
   unfold tick
